@@ -450,11 +450,64 @@ fn c07_at_forms() {
   }
 }
 
+/// Relative-time forms built first and subscribed after a real pause: the delay counts from subscription (for
+/// delay: from the item), so the timer that is requested must be the whole duration, whatever the wall clock did
+/// between construction and subscription.
+fn c08_built_earlier() {
+  let which = e::choose(5);
+  let dur = Duration::from_millis(10_000);
+  let probe = fresh_probe();
+  let sd = world::any_sched();
+  let pause = || std::thread::sleep(Duration::from_millis(25));
+  let name = match which {
+    0 => {
+      let o = observable::timer(Val::c(1), dur, sd);
+      pause();
+      let _u = o.actual_subscribe(probe);
+      "timer"
+    }
+    1 => {
+      let o = observable::interval(dur, sd).map(|n: usize| Val::c(n as i64));
+      pause();
+      let _u = o.actual_subscribe(probe);
+      "interval"
+    }
+    2 => {
+      let o = cat::cold(vec![Val::c(1)], Tm::Complete, 0).delay(dur, sd);
+      pause();
+      let _u = o.actual_subscribe(probe);
+      "delay"
+    }
+    3 => {
+      let o = cat::cold(vec![Val::c(1)], Tm::Complete, 0).delay_subscription(dur, sd);
+      pause();
+      let _u = o.actual_subscribe(probe);
+      "delay_subscription"
+    }
+    _ => {
+      let o = cat::cold_t(vec![Val::c(1)], Tm::Complete, 0).delay_threads(dur, sd);
+      pause();
+      let _u = o.actual_subscribe(probe);
+      "delay_threads"
+    }
+  };
+  e::note(format!("{}(10 s) built, subscribed 25 ms later", name));
+  world::run_fifo_until_stalled(16);
+  let reqs: Vec<(u64, u64)> = world::w(|w| w.timer_requests.clone());
+  if reqs.is_empty() || reqs.iter().any(|r| r.1 < 10_000) {
+    e::fail(&format!("built-earlier/{}/requested-delay", name), || format!("the timers requested after subscription were {:?} ms, the configured duration is 10000 ms", reqs.iter().map(|r| r.1).collect::<Vec<_>>()));
+  }
+  if probe.len() > 0 {
+    e::fail(&format!("built-earlier/{}/early", name), || "delivered before the duration elapsed".to_string());
+  }
+}
+
 pub fn harnesses() -> Vec<HarnessDef> {
   let mut v = vec![];
   let mut add = |id: &'static str, props: Vec<&'static str>, about: &'static str, bounds: fn(bool) -> String, f: Box<dyn Fn(bool) + Send + Sync>, bq: u64, bt: u64, sampled: bool| {
     v.push(HarnessDef { id, props, about, bounds, f, budget_quick: bq, budget_thorough: bt, thorough_only: false, sampled });
   };
+  add("c08_built_earlier", vec!["C08", "C07"], "timer, interval, delay, delay_subscription, delay_threads built first and subscribed after a real 25 ms pause: the requested timer is the whole configured duration", |_| "5 operators, duration 10 s".to_string(), Box::new(|_| c08_built_earlier()), 10_000, 10_000, false);
   fn b7(t: bool) -> String {
     format!("observe_on, delay(1|2), delay_subscription(1|2), subscribe_on; scripts of <= {} symbolic items with gaps 0..2 and every terminal; hot and cold sources; executor run eagerly or late at every step; LocalPool(FIFO) and ANY-order executors (threads forms: hook FIFO and ANY)", if t { 3 } else { 2 })
   }
